@@ -261,7 +261,7 @@ Section Codec.
         match parse_isize rest with Some v => Ok (CNumber v) | None => Err end
       else if list_eqb p pfx_scl then
         (* guard added by fix 3b055e9 in front of the panicking library call *)
-        if (len rest <? 64) || negb (forallb is_hexb (firstn 64 rest)) then Err
+        if negb (len rest =? 64) || negb (forallb is_hexb rest) then Err   (* exactly 64 hex digits (fix 06055a6) *)
         else rmap CScalar (scalar_from_be_hex rest)
       else if list_eqb p pfx_rev then Ok (CRevocation rest)
       else if list_eqb p pfx_enm then
